@@ -56,6 +56,11 @@ fn main() {
                 writeln!(out, "{}", gram::render(&line)).unwrap();
             }
         }
+        "unicode-names" => {
+            // the advertised names, from the compiled function
+            let names: Vec<&str> = pest::unicode::unicode_property_names().collect();
+            writeln!(out, "{}", names.join(",")).unwrap();
+        }
         "unicode-ranges" => {
             for line in stdin.lock().lines() {
                 let line = line.unwrap();
